@@ -124,6 +124,14 @@ func locked(c *evCtx, v *harness.ValSpec, d *harness.Account) int64 {
 
 func withdrawable(c *evCtx, d *harness.Account) int64 { return i64(c.V.Bounded[d.Addr.String()]) }
 
+// belowMin is the amount that takes a locked stake down to one below the minimum self-delegation (500 000).
+func belowMin(lockedNow int64) int64 {
+	if lockedNow > 499999 {
+		return lockedNow - 499999
+	}
+	return 1
+}
+
 func atLeast1(n int64) int64 {
 	if n < 1 {
 		return 1
@@ -182,6 +190,33 @@ func events() []*eventDef {
 			return [][]*op{
 				{evidenceOp("guilty", w.Vals[1].Val, stk.Allegation(id, w.Vals[1].Val, w.Vals[0].Val.Addr, 1, "proof", c.Tag+"a"))},
 				{evidenceOp("guilty", w.Vals[1].Val, stk.AllegationVote(id, w.Vals[1].Val, stk.Yes, c.Tag+"b"))},
+				{evidenceOp("guilty", w.Vals[2].Val, stk.AllegationVote(id, w.Vals[2].Val, stk.Yes, c.Tag+"c"))},
+			}
+		}},
+		// V1 drops below the minimum self-delegation (it loses its seat and is purged from the validator queue a
+		// few blocks later) but keeps a stake that a penalty can be taken from; alone, and inside the verdict
+		// macro, so that purge and verdict meet in one block or in neighbouring blocks (the cut of the validator
+		// RECORD is applied a block after the verdict, by a routine that refuses changes right after a purge)
+		{Name: "unstake(V1,S1,down-to-minimum-1)", Kind: "unstake-below-min", Blocks: func(c *C) [][]*op {
+			return one(unstakeOp("unstake-below-min", v1(c).Val, v1(c).Stake, belowMin(locked(c, v1(c), v1(c).Stake)), c.Tag))
+		}},
+		{Name: "guilty-verdict(V1)+unstake(V1,S1,down-to-minimum-1)-in-its-first-block", Kind: "guilty-unstake-first", Blocks: func(c *C) [][]*op {
+			id := "req-" + c.Tag
+			w := c.W
+			return [][]*op{
+				{evidenceOp("guilty", w.Vals[1].Val, stk.Allegation(id, w.Vals[1].Val, w.Vals[0].Val.Addr, 1, "proof", c.Tag+"a")),
+					unstakeOp("guilty-unstake-first", v1(c).Val, v1(c).Stake, belowMin(locked(c, v1(c), v1(c).Stake)), c.Tag+"u")},
+				{evidenceOp("guilty", w.Vals[1].Val, stk.AllegationVote(id, w.Vals[1].Val, stk.Yes, c.Tag+"b"))},
+				{evidenceOp("guilty", w.Vals[2].Val, stk.AllegationVote(id, w.Vals[2].Val, stk.Yes, c.Tag+"c"))},
+			}
+		}},
+		{Name: "guilty-verdict(V1)+unstake(V1,S1,down-to-minimum-1)-in-its-second-block", Kind: "guilty-unstake-second", Blocks: func(c *C) [][]*op {
+			id := "req-" + c.Tag
+			w := c.W
+			return [][]*op{
+				{evidenceOp("guilty", w.Vals[1].Val, stk.Allegation(id, w.Vals[1].Val, w.Vals[0].Val.Addr, 1, "proof", c.Tag+"a"))},
+				{evidenceOp("guilty", w.Vals[1].Val, stk.AllegationVote(id, w.Vals[1].Val, stk.Yes, c.Tag+"b")),
+					unstakeOp("guilty-unstake-second", v1(c).Val, v1(c).Stake, belowMin(locked(c, v1(c), v1(c).Stake)), c.Tag+"u")},
 				{evidenceOp("guilty", w.Vals[2].Val, stk.AllegationVote(id, w.Vals[2].Val, stk.Yes, c.Tag+"c"))},
 			}
 		}},
